@@ -274,7 +274,7 @@ def run(ck, facts, tier):
             lambda name: name.startswith("aggregate_") or name == "any",
             lambda a: (a.get("k") == "bin" and "%s%s%s" % (var_name(a["l"]) or "?", "!=" if a["op"] == "Ne" else "==", var_name(a["r"]) or "?"))
             or str((a.get("fn") or a.get("res") or a.get("k"))).split("::")[-1])
-    ck.floor(R, "component-tests", n, 30)
+    ck.floor(R, "component-tests", n, 20)
 
     # ------------------------------------------------------------------ LEAF-EQUALITY
     R = "C17.LEAF-EQUALITY"
@@ -304,7 +304,7 @@ def run(ck, facts, tier):
                 ck.ok(R, inst, "whole components compared")
             else:
                 ck.violation(R, inst, b.where(x.get("ln")), "an identity test compares %s instead of the two whole components" % shapes)
-    ck.floor(R, "identity-tests", n, 16)
+    ck.floor(R, "identity-tests", n, 10)
 
     # ------------------------------------------------------------------ ALL-PARAMS
     R = "C17.ALL-PARAMS"
